@@ -169,7 +169,6 @@ MUTATORS = {
         ("stride ignores rank", r"quimb/operator/configcore\.py$", r"^(\s+)for ci in range\(world_rank, D, world_size\):\s*$", r"\1for ci in range(0, D, world_size):"),
     ],
     "C17": [
-        ("dense window route ignores k", r"quimb/linalg/base_linalg\.py$", r"^(\s+)closest = np\.sort\(np\.argsort\(np\.abs\(lk - l_w0\)\)\[:k\]\)\s*$", r"\1closest = np.arange(lk.size)"),
         ("adjoint without conjugation", r"quimb/linalg/base_linalg\.py$", r"^(\s+)return np\.conj\(self\.factor\) \* vec\s*$", r"\1return self.factor * vec"),
         ("setting from wrong name", r"quimb/linalg/base_linalg\.py$", r"^(\s+)\"return_vecs\": return_vecs,\s*$", r'\1"return_vecs": True,'),
         ("dense table", r"quimb/linalg/numpy_linalg\.py$", r"^(\s+)\(True, False, False\): nla\.eigvalsh,\s*$", r"\1(True, False, False): nla.eigvals,"),
